@@ -437,3 +437,203 @@ Proof.
   - intros p Hin. cbn in Hin. destruct Hin as [<-|[<-|[<-|[]]]]; cbn; lia.
   - intros p Hin. cbn in Hin. destruct Hin as [<-|[<-|[<-|[]]]]; reflexivity.
 Qed.
+
+(* ================================================================================= *)
+(* 5. phase 11: which revealed shares enter the reconstruction                       *)
+(* ================================================================================= *)
+
+(* reconstructed_key_correct needs every interpolated share to lie on the misbehaved member's
+   polynomial.  For the shares recovered from OTHER members' revealed ephemeral keys this is what
+   recoverMisbehavedShares enforces, whoever the revealer is (an honest member, or a corrupt
+   accomplice of the misbehaved member that was sent a share no honest member could check and kept
+   quiet in phase 4): a share is admitted only after areSharesValidAgainstCommitments, and every
+   other branch leaves the table alone. *)
+
+Lemma lookup_put_same : forall A k (v : A) l, lookup k (put k v l) = Some v.
+Proof.
+  induction l as [|[k' v'] r IH]; cbn.
+  - now rewrite N.eqb_refl.
+  - destruct (N.eqb k k') eqn:E; cbn; rewrite ?N.eqb_refl, ?E; auto.
+Qed.
+Lemma lookup_put_other : forall A k k2 (v : A) l, k2 <> k -> lookup k2 (put k v l) = lookup k2 l.
+Proof.
+  induction l as [|[k' v'] r IH]; cbn; intros Hne.
+  - destruct (N.eqb k2 k) eqn:E; auto. apply N.eqb_eq in E. contradiction.
+  - destruct (N.eqb k k') eqn:E; cbn.
+    + apply N.eqb_eq in E. subst k'. destruct (N.eqb k2 k) eqn:E2; auto.
+      apply N.eqb_eq in E2. contradiction.
+    + destruct (N.eqb k2 k'); auto.
+Qed.
+Lemma lookup_app_none : forall A k (l r : list (N * A)), lookup k l = None -> lookup k (l ++ r) = lookup k r.
+Proof.
+  induction l as [|[k' v'] l IH]; cbn; intros; auto. destruct (N.eqb k k'); [discriminate|auto].
+Qed.
+Lemma lookup_app_some : forall A k (v : A) (l r : list (N * A)), lookup k l = Some v -> lookup k (l ++ r) = Some v.
+Proof.
+  induction l as [|[k' v'] l IH]; cbn; intros; [discriminate|]. destruct (N.eqb k k'); auto.
+Qed.
+
+(* the table of revealed shares after addShare(m, k, s) *)
+Lemma lookup_add_share : forall mis revealer vs l m2,
+  lookup m2 (add_share mis revealer vs l) =
+  if N.eqb m2 mis then Some (put revealer vs (match lookup mis l with Some sh => sh | None => [] end))
+  else lookup m2 l.
+Proof.
+  intros. unfold add_share. destruct (lookup mis l) as [sh|] eqn:E.
+  - destruct (N.eqb m2 mis) eqn:E2.
+    + apply N.eqb_eq in E2. subst. apply lookup_put_same.
+    + apply lookup_put_other. intro; subst. now rewrite N.eqb_refl in E2.
+  - destruct (N.eqb m2 mis) eqn:E2.
+    + apply N.eqb_eq in E2. subst. rewrite lookup_app_none by exact E. cbn. now rewrite N.eqb_refl.
+    + destruct (lookup m2 l) eqn:E3.
+      * now apply lookup_app_some.
+      * rewrite lookup_app_none by exact E3. cbn. now rewrite E2.
+Qed.
+
+Section R11.
+  Variable c : cfg.
+
+  Lemma mark_dq_revealed : forall m s, revealed (mark_dq c m s) = revealed s.
+  Proof. intros. unfold mark_dq. now destruct (is_operating c s m). Qed.
+  Lemma mark_dq_commits : forall m s, commits (mark_dq c m s) = commits s.
+  Proof. intros. unfold mark_dq. now destruct (is_operating c s m). Qed.
+
+  Definition commits_of (s : mstate) (m : N) : list g1 :=
+    match lookup m (commits s) with Some l => l | None => [] end.
+
+  (* recoverMisbehavedShares, one revealed key: the table of revealed shares changes in ONE way
+     only, by admitting the share that was decrypted with the revealed key and passed
+     areSharesValidAgainstCommitments against the misbehaved member's commitments at the
+     revealer's index.  In every other branch (own key revealed, operating member, key not
+     matching, no public key, no shares message, undecryptable, INCONSISTENT WITH THE COMMITMENTS)
+     the table is untouched; commitments never change. *)
+  Lemma recover11_admits_only_consistent : forall revealer s stop mis key,
+    let r := recover11 c revealer (s, stop) (mis, key) in
+    commits (fst r) = commits s /\
+    (revealed (fst r) = revealed s \/
+     exists sh mpk vs vt,
+       lookup mis (log_sh s) = Some sh /\ find_pub s mis revealer = Some mpk /\
+       decrypt sh revealer (ecdh key mpk) = Some (vs, vt) /\
+       valid_g1 (q c) vs vt (commits_of s mis) revealer = true /\
+       revealed (fst r) = add_share mis revealer vs (revealed s)).
+  Proof.
+    intros revealer s stop mis key. cbv zeta. unfold recover11.
+    destruct stop; [cbn; auto|].
+    destruct (N.eqb (me s) mis); [cbn; rewrite mark_dq_revealed, mark_dq_commits; auto|].
+    destruct (is_operating c s mis); [cbn; auto|].
+    destruct (find_pub s revealer mis) as [rpk|]; [|cbn; auto].
+    destruct (negb (N.eqb rpk key)); [cbn; rewrite mark_dq_revealed, mark_dq_commits; auto|].
+    destruct (find_pub s mis revealer) as [mpk|] eqn:Empk; [|cbn; rewrite mark_dq_revealed, mark_dq_commits; auto].
+    destruct (lookup mis (log_sh s)) as [sh|] eqn:Esh; [|cbn; rewrite mark_dq_revealed, mark_dq_commits; auto].
+    destruct (decrypt sh revealer (ecdh key mpk)) as [[vs vt]|] eqn:Edec;
+      [|cbn; rewrite mark_dq_revealed, mark_dq_commits; auto].
+    fold (commits_of s mis).
+    destruct (valid_g1 (q c) vs vt (commits_of s mis) revealer) eqn:Ev;
+      [|cbn; rewrite mark_dq_revealed, mark_dq_commits; auto].
+    cbn. split; [reflexivity|]. right. exists sh, mpk, vs, vt. auto.
+  Qed.
+
+  (* every revealed share lies on the polynomial the misbehaved member committed to *)
+  Definition revealed_consistent (s : mstate) : Prop :=
+    forall mis sh k v, lookup mis (revealed s) = Some sh -> lookup k sh = Some v ->
+      commits_of s mis <> [] /\ (v mod q c = eval (q c) (map fst (commits_of s mis)) k)%Z.
+
+  Lemma valid_g1_on_poly : forall vs vt cs i, valid_g1 (q c) vs vt cs i = true ->
+    cs <> [] /\ (vs mod q c = eval (q c) (map fst cs) i)%Z.
+  Proof.
+    intros vs vt cs i H. unfold valid_g1 in H. destruct cs as [|c0 cs]; [discriminate|].
+    apply andb_true_iff in H. destruct H as [H _]. apply Z.eqb_eq in H. split; [discriminate|exact H].
+  Qed.
+
+  Lemma recover11_keeps_consistent : forall revealer sb a,
+    revealed_consistent (fst sb) -> revealed_consistent (fst (recover11 c revealer sb a)).
+  Proof.
+    intros revealer [s stop] [mis key] Hc.
+    destruct (recover11_admits_only_consistent revealer s stop mis key) as [Hcm Hr].
+    cbv zeta in Hcm, Hr. cbn [fst] in Hc.
+    set (r := recover11 c revealer (s, stop) (mis, key)) in *.
+    unfold revealed_consistent, commits_of in *. rewrite Hcm.
+    destruct Hr as [Hr|(sh0 & mpk & vs & vt & _ & _ & _ & Hv & Hr)]; rewrite Hr; [exact Hc|].
+    intros m2 sh k v Hl Hk. rewrite lookup_add_share in Hl.
+    destruct (N.eqb m2 mis) eqn:E.
+    - apply N.eqb_eq in E. subst m2. injection Hl as <-.
+      destruct (N.eq_dec k revealer) as [->|Hne].
+      + rewrite lookup_put_same in Hk. injection Hk as <-. apply valid_g1_on_poly in Hv. exact Hv.
+      + rewrite lookup_put_other in Hk by exact Hne.
+        destruct (lookup mis (revealed s)) as [old|] eqn:Eo; [|discriminate].
+        eapply Hc; eauto.
+    - eapply Hc; eauto.
+  Qed.
+
+  (* the whole loop of recoverMisbehavedShares over all reveal messages (any number of messages,
+     any keys in them, any order) *)
+  Lemma recover_all_keeps_consistent : forall (msgs : list (N * list (N * ekey))) sb,
+    revealed_consistent (fst sb) ->
+    revealed_consistent (fst (fold_left (fun sb m => fold_left (recover11 c (fst m)) (snd m) sb) msgs sb)).
+  Proof.
+    induction msgs as [|m msgs IH]; intros sb H; cbn; [exact H|].
+    apply IH. clear IH. generalize dependent sb.
+    induction (snd m) as [|a l IHl]; intros sb H; cbn; [exact H|].
+    apply IHl. now apply recover11_keeps_consistent.
+  Qed.
+End R11.
+
+Lemma revealed_consistent_nil : forall c s, revealed s = [] -> revealed_consistent c s.
+Proof. intros c s H mis sh k v Hl. rewrite H in Hl. discriminate. Qed.
+
+(* a complete run of the model, n = 5, t = 2, modulo 13, seats 4 and 5 corrupt and cooperating:
+   5 deals shares of col_A5 but sends its accomplice 4 an S-share that is off by [off]; 4 keeps
+   quiet in phase 4, 5 is silent from phase 4 on, 4 reveals the key it used with 5 in phase 10. *)
+
+Definition col_cfg : cfg := {| q := 13; gn := 5; gt := 2; csess := 1; ops := [1; 2; 3; 4; 5] |}.
+Definition col_A4 : list Z := [8; 4; 6]%Z.
+Definition col_B4 : list Z := [2; 6; 4]%Z.
+Definition col_A5 : list Z := [3; 3; 8]%Z.
+Definition col_B5 : list Z := [3; 2; 7]%Z.
+Definition col_eph (i : N) : netmsg :=
+  wrap col_cfg (EphPub i 1 (map (fun j => (j, ek i j)) (filter (fun j => negb (N.eqb j i)) [1; 2; 3; 4; 5]))).
+(* the shares message of dealer [i]; the S-share for receiver [bad] is off by [off] *)
+Definition col_shares (i : N) (a b : list Z) (bad : N) (off : Z) : netmsg :=
+  wrap col_cfg (Shares i 1 (map (fun j => (j, Enc (ecdh (ek i j) (ek j i))
+                                      (eval 13 a j + (if N.eqb j bad then off else 0))%Z (eval 13 b j)))
+                                (filter (fun j => negb (N.eqb j i)) [1; 2; 3; 4; 5]))).
+Definition col_script (off : Z) : script :=
+  {| adv1 := [col_eph 4; col_eph 5];
+     adv3 := [col_shares 4 col_A4 col_B4 0 0; wrap col_cfg (Commits 4 1 (combine col_A4 col_B4));
+              col_shares 5 col_A5 col_B5 4 off; wrap col_cfg (Commits 5 1 (combine col_A5 col_B5))];
+     adv4 := [wrap col_cfg (SAccuse 4 1 [])];          (* the accomplice keeps quiet; 5 is silent from here on *)
+     adv7 := [wrap col_cfg (Points 4 1 col_A4)];
+     adv8 := [wrap col_cfg (PAccuse 4 1 [])];
+     adv10 := [wrap col_cfg (Reveal 4 1 [(5, ek 4 5)])];  (* ... and reveals the key it used with 5 *)
+     order := [] |}.
+Definition col_input (off : Z) : input :=
+  {| i_cfg := col_cfg;
+     i_honest := [ {| h_id := 1; h_coefA := [3; 1; 4]%Z; h_coefB := [1; 5; 9]%Z |};
+                   {| h_id := 2; h_coefA := [2; 6; 5]%Z; h_coefB := [3; 5; 8]%Z |};
+                   {| h_id := 3; h_coefA := [9; 7; 9]%Z; h_coefB := [3; 2; 3]%Z |} ];
+     i_script := col_script off |}.
+
+(* off = 1: every honest member drops the inconsistent share (no entry of revealer 4 in the table),
+   disqualifies 4, reconstructs 5's key 3 = col_A5(0) from the three honest shares, and the
+   honest shares (0, 0, 12 at 1, 2, 3) interpolate to the group key 12 = 3+2+9+8+3 mod 13 *)
+Example ex_colluding_revealer_dropped :
+  run (col_input 1) =
+    [(1, Finished [5] [4] 12 0 [(2, 0%Z); (3, 12%Z)]);
+     (2, Finished [5] [4] 12 0 [(1, 0%Z); (3, 12%Z)]);
+     (3, Finished [5] [4] 12 12 [(1, 0%Z); (2, 0%Z)])]
+  /\ map (fun s => (map fst (match lookup 5 (revealed s) with Some sh => sh | None => [] end), reconPriv s))
+         (run_states (col_input 1))
+     = [([2; 3; 1], [(5, 3%Z)]); ([1; 3; 2], [(5, 3%Z)]); ([1; 2; 3], [(5, 3%Z)])]
+  /\ interpolate0 13 [(1, 0%Z); (2, 0%Z); (3, 12%Z)] = 12%Z.
+Proof. vm_compute. auto. Qed.
+(* off = 0 (control): the accomplice's share is consistent, it IS interpolated (four points),
+   nobody is disqualified, same key *)
+Example ex_colluding_revealer_control :
+  run (col_input 0) =
+    [(1, Finished [5] [] 12 0 [(2, 0%Z); (3, 12%Z); (4, 10%Z)]);
+     (2, Finished [5] [] 12 0 [(1, 0%Z); (3, 12%Z); (4, 10%Z)]);
+     (3, Finished [5] [] 12 12 [(1, 0%Z); (2, 0%Z); (4, 10%Z)])]
+  /\ map (fun s => (map fst (match lookup 5 (revealed s) with Some sh => sh | None => [] end), reconPriv s))
+         (run_states (col_input 0))
+     = [([2; 3; 4; 1], [(5, 3%Z)]); ([1; 3; 4; 2], [(5, 3%Z)]); ([1; 2; 4; 3], [(5, 3%Z)])].
+Proof. vm_compute. auto. Qed.
